@@ -2,6 +2,7 @@
 import quantile_rules as Q
 import cowrite
 import generic_lints
+import triggers
 
 
 def run(facts, tier):
@@ -12,6 +13,7 @@ def run(facts, tier):
         ("compaction loop", lambda fa: [o for o in Q.compaction_triggers(fa) if o["key"].startswith("density")], 2, "compaction repeats while num_retained_ >= k * levels"),
         ("couplings", lambda fa: cowrite.obligations(fa, ['density_sketch']), 2, "fields that every mutator updates together (counters, extremes, cached values) are still updated together"),
         ("duplicate operands", lambda fa: generic_lints.duplicate_conjuncts(fa, ('density/',)), 2, "no logical chain tests the same operand twice (copy-paste of the wrong peer)"),
+        ("structural triggers", lambda fa: triggers.obligations(fa, ['density_sketch']), 3, "the comparisons that decide when to resize / rebuild / compact / purge / promote keep their reviewed boundary (operator and constants)"),
     ):
         o = f(facts)
         obs += o
